@@ -35,7 +35,7 @@ pub fn requirements(tier: Tier) -> Vec<(&'static str, u64)> {
         ("random-histories", if q { 20_000 } else { 1_000_000 }),
         ("random-transitions", if q { 1_000_000 } else { 50_000_000 }),
         ("max:collection-size", 8),
-        ("set:operation-forms-exercised", 43),
+        ("set:operation-forms-exercised", 44),
         ("observed:documented-index-panic", 1_000),
         ("observed:invalid-key-refused", 10_000),
         ("observed:case-variant-lookup-hit", 10_000),
@@ -44,6 +44,54 @@ pub fn requirements(tier: Tier) -> Vec<(&'static str, u64)> {
 }
 
 type M = BTreeMap<String, String>;
+
+/// A user-defined typed qualifier whose declared key is valid but not lower-case (index 7).
+pub struct MixedKey<'a>(pub &'a str);
+
+impl purl::qualifiers::well_known::KnownQualifierKey for MixedKey<'_> {
+    const KEY: &'static str = "Mixed_Key.X-1";
+}
+
+impl<'a> From<&'a str> for MixedKey<'a> {
+    fn from(v: &'a str) -> Self {
+        MixedKey(v)
+    }
+}
+
+impl<'a> From<MixedKey<'a>> for SmallString {
+    fn from(v: MixedKey<'a>) -> Self {
+        SmallString::from(v.0)
+    }
+}
+
+/// The same key read through a fallible conversion (index 7 of `TryGetTypedUser`).
+pub struct MixedTry<'a>(pub &'a str);
+
+impl purl::qualifiers::well_known::KnownQualifierKey for MixedTry<'_> {
+    const KEY: &'static str = "MIXED_key.x-1";
+}
+
+impl<'a> TryFrom<&'a str> for MixedTry<'a> {
+    type Error = String;
+
+    fn try_from(v: &'a str) -> Result<Self, String> {
+        if v.contains('!') {
+            Err("bang".into())
+        } else {
+            Ok(MixedTry(v))
+        }
+    }
+}
+
+pub const N_TYPED: u8 = 8;
+
+fn typed_key(i: u8) -> &'static str {
+    if i >= 7 {
+        "mixed_key.x-1"
+    } else {
+        TYPED_KEYS[i as usize]
+    }
+}
 
 #[derive(Clone, Debug, Serialize, Deserialize, PartialEq, Eq, Hash)]
 pub enum Pred {
@@ -105,6 +153,8 @@ pub enum QOp {
     RemoveTyped(u8),
     GetTyped(u8),
     TryGetChecksum,
+    /// try_get_typed with a user-defined fallible type whose KEY is mixed-case
+    TryGetTypedUser,
     ContainsTyped(u8),
     Retain(Pred),
     RetainMut(Pred, String),
@@ -156,6 +206,7 @@ impl QOp {
             QOp::RemoveTyped(..) => "remove_typed",
             QOp::GetTyped(..) => "get_typed",
             QOp::TryGetChecksum => "try_get_typed",
+            QOp::TryGetTypedUser => "try_get_typed(user type)",
             QOp::ContainsTyped(..) => "contains_typed",
             QOp::Retain(..) => "retain",
             QOp::RetainMut(..) => "retain_mut",
@@ -299,7 +350,7 @@ pub fn apply_model(m: &mut M, op: &QOp) -> String {
             o => o.to_string(),
         },
         QOp::InsertTyped(i, v) => {
-            m.insert(TYPED_KEYS[*i as usize].into(), v.clone());
+            m.insert(typed_key(*i).into(), v.clone());
             "()".into()
         },
         QOp::TryInsertChecksum(entries) => match checksum_inserts_text(entries) {
@@ -310,10 +361,15 @@ pub fn apply_model(m: &mut M, op: &QOp) -> String {
             Err(e) => format!("Err({e})"),
         },
         QOp::RemoveTyped(i) => {
-            m.remove(TYPED_KEYS[*i as usize]);
+            m.remove(typed_key(*i));
             "()".into()
         },
-        QOp::GetTyped(i) => opt(m.get(TYPED_KEYS[*i as usize]).map(|s| s.as_str())),
+        QOp::GetTyped(i) => opt(m.get(typed_key(*i)).map(|s| s.as_str())),
+        QOp::TryGetTypedUser => match m.get("mixed_key.x-1") {
+            None => "Ok(None)".into(),
+            Some(v) if v.contains('!') => "Err(bang)".into(),
+            Some(v) => format!("Ok(Some({v:?}))"),
+        },
         QOp::TryGetChecksum => match m.get("checksum") {
             None => "Ok(None)".into(),
             Some(t) => match structure_checksum(t) {
@@ -321,7 +377,7 @@ pub fn apply_model(m: &mut M, op: &QOp) -> String {
                 Err(()) => "Err(InvalidQualifier)".into(),
             },
         },
-        QOp::ContainsTyped(i) => m.contains_key(TYPED_KEYS[*i as usize]).to_string(),
+        QOp::ContainsTyped(i) => m.contains_key(typed_key(*i)).to_string(),
         QOp::Retain(p) => {
             m.retain(|k, v| p.eval(k, v));
             "()".into()
@@ -520,7 +576,8 @@ pub fn apply_real(q: &mut Qualifiers, op: &QOp) -> String {
                 3 => q.insert_typed(FileName::from(v)),
                 4 => q.insert_typed(Classifier::from(v)),
                 5 => q.insert_typed(MavenType::from(v)),
-                _ => q.insert_typed(Platform::from(v)),
+                6 => q.insert_typed(Platform::from(v)),
+                _ => q.insert_typed(MixedKey::from(v)),
             }
             "()".into()
         },
@@ -536,7 +593,8 @@ pub fn apply_real(q: &mut Qualifiers, op: &QOp) -> String {
                 3 => q.remove_typed::<FileName>(),
                 4 => q.remove_typed::<Classifier>(),
                 5 => q.remove_typed::<MavenType>(),
-                _ => q.remove_typed::<Platform>(),
+                6 => q.remove_typed::<Platform>(),
+                _ => q.remove_typed::<MixedKey>(),
             }
             "()".into()
         },
@@ -547,7 +605,13 @@ pub fn apply_real(q: &mut Qualifiers, op: &QOp) -> String {
             3 => ropt(q.get_typed::<FileName>().as_deref()),
             4 => ropt(q.get_typed::<Classifier>().as_deref()),
             5 => ropt(q.get_typed::<MavenType>().as_deref()),
-            _ => ropt(q.get_typed::<Platform>().as_deref()),
+            6 => ropt(q.get_typed::<Platform>().as_deref()),
+            _ => ropt(q.get_typed::<MixedKey>().map(|m| m.0)),
+        },
+        QOp::TryGetTypedUser => match q.try_get_typed::<MixedTry>() {
+            Ok(None) => "Ok(None)".into(),
+            Ok(Some(m)) => format!("Ok(Some({:?}))", m.0),
+            Err(e) => format!("Err({e})"),
         },
         QOp::TryGetChecksum => match q.try_get_typed::<Checksum>() {
             Ok(None) => "Ok(None)".into(),
@@ -565,7 +629,8 @@ pub fn apply_real(q: &mut Qualifiers, op: &QOp) -> String {
             3 => q.contains_typed::<FileName>(),
             4 => q.contains_typed::<Classifier>(),
             5 => q.contains_typed::<MavenType>(),
-            _ => q.contains_typed::<Platform>(),
+            6 => q.contains_typed::<Platform>(),
+            _ => q.contains_typed::<MixedKey>() && q.contains_typed::<MixedTry>() == q.contains_typed::<MixedKey>(),
         }
         .to_string(),
         QOp::Retain(p) => {
@@ -833,6 +898,12 @@ fn universe_ops() -> Vec<QOp> {
         v.push(QOp::RetainMut(p, s("~")));
     }
     v.push(QOp::InsertTyped(0, s("u")));
+    v.push(QOp::InsertTyped(7, s("m")));
+    v.push(QOp::InsertTyped(7, s("m!")));
+    v.push(QOp::RemoveTyped(7));
+    v.push(QOp::GetTyped(7));
+    v.push(QOp::ContainsTyped(7));
+    v.push(QOp::TryGetTypedUser);
     v.push(QOp::InsertTyped(4, s("")));
     v.push(QOp::RemoveTyped(0));
     v.push(QOp::GetTyped(0));
@@ -922,12 +993,18 @@ fn rand_op(r: &mut Rng, pool: &[String]) -> QOp {
         21 => QOp::OccRemove(k),
         22 => QOp::OccRemoveEntry(k),
         23 => QOp::VacInsert(k, rand_val(r)),
-        24 => QOp::InsertTyped(r.below(7) as u8, rand_val(r)),
+        24 => QOp::InsertTyped(r.below(N_TYPED as usize) as u8, rand_val(r)),
         25 => QOp::TryInsertChecksum(crate::hist::rand_cs_entries(r)),
-        26 => QOp::RemoveTyped(r.below(7) as u8),
-        27 => QOp::GetTyped(r.below(7) as u8),
-        28 => QOp::TryGetChecksum,
-        29 => QOp::ContainsTyped(r.below(7) as u8),
+        26 => QOp::RemoveTyped(r.below(N_TYPED as usize) as u8),
+        27 => QOp::GetTyped(r.below(N_TYPED as usize) as u8),
+        28 => {
+            if r.coin() {
+                QOp::TryGetChecksum
+            } else {
+                QOp::TryGetTypedUser
+            }
+        },
+        29 => QOp::ContainsTyped(r.below(N_TYPED as usize) as u8),
         30 => QOp::Retain(match r.below(6) {
             0 => Pred::All,
             1 => Pred::Nothing,
